@@ -63,6 +63,40 @@ def confirm(name, wt, out, flags):
     return 0
 
 
+def run_isolated(name, checks):
+    """Same as run(), on a scratch copy of /repo's working tree (src + test helpers) outside /repo and /verif,
+    with private build cache, work directory, evidence and replays: usable while other checks run on /repo."""
+    import shutil
+    import tempfile
+    dest = os.path.join(ROOT, "seeded", name)
+    patch = os.path.join(dest, "patch.diff")
+    scratch = tempfile.mkdtemp(prefix=f"seed-{name}-", dir="/tmp")
+    try:
+        sh(f"mkdir -p {scratch}/repo/extras/tests && cp -r /repo/src {scratch}/repo/src && "
+           f"cp -r /repo/extras/tests/Helpers {scratch}/repo/extras/tests/Helpers && cd {scratch}/repo && git init -q . && "
+           f"git add -A >/dev/null && git -c user.email=a@b -c user.name=x commit -qm base")
+        rc, o = sh(f"git -C {scratch}/repo apply {patch}")
+        if rc != 0:
+            print("patch does not apply:", o)
+            return 1
+        meta = json.load(open(os.path.join(dest, "meta.json")))
+        env = (f"VERIF_REPO={scratch}/repo VERIF_BUILD={scratch}/build VERIF_WORK={scratch}/work "
+               f"VERIF_EVIDENCE={scratch}/evidence VERIF_REPLAYS={scratch}/replays")
+        for c in checks:
+            t0 = time.time()
+            rc, o = sh(f"{env} python3 tools/check.py {c} quick", cwd=ROOT, timeout=5400)
+            viol = [l for l in o.splitlines() if l.startswith("VIOLATION")]
+            first = [l for l in o.splitlines() if "violation:" in l][:1]
+            verdict = "caught" if rc == 1 and viol else ("missed" if rc == 0 else f"error rc={rc}")
+            meta["checks"][c] = {"verdict": verdict, "wall_s": round(time.time() - t0), "first": (first[0][:400] if first else ""),
+                                 "how": "isolated copy of the working tree (VERIF_REPO)"}
+            print(c, verdict, f"{time.time() - t0:.0f}s", first[0][:300] if first else "")
+        json.dump(meta, open(os.path.join(dest, "meta.json"), "w"), indent=1)
+    finally:
+        shutil.rmtree(scratch, ignore_errors=True)
+    return 0
+
+
 def run(name, checks):
     dest = os.path.join(ROOT, "seeded", name)
     patch = os.path.join(dest, "patch.diff")
@@ -93,4 +127,6 @@ def run(name, checks):
 if __name__ == "__main__":
     if sys.argv[1] == "confirm":
         sys.exit(confirm(sys.argv[2], sys.argv[3], sys.argv[4], sys.argv[5:]))
+    if sys.argv[1] == "run-isolated":
+        sys.exit(run_isolated(sys.argv[2], sys.argv[3:]))
     sys.exit(run(sys.argv[2], sys.argv[3:]))
